@@ -90,6 +90,7 @@ class TrioEventLoop(EventLoop):
         self._pending_tasks: list[tuple[Callable[_Spec, Awaitable], trio.CancelScope, _Spec.args]] = []
 
         self._nursery: trio.Nursery | None = None
+        self._alarm_deadlines: list[float] = []  # due times of the alarms whose task is running
 
         self._sleep = trio.sleep
         self._wait_readable = trio.lowlevel.wait_readable
@@ -244,10 +245,18 @@ class TrioEventLoop(EventLoop):
             seconds: the number of seconds to wait
             callback: the callback to call
         """
-        with scope:
-            await self._sleep(seconds)
-            if not scope.cancel_called:  # not removed while this task was waking up
-                callback()
+        deadline = trio.current_time() + seconds
+        self._alarm_deadlines.append(deadline)
+        try:
+            with scope:
+                await self._sleep(seconds)
+                # alarms that expire together are woken in arbitrary order: let the ones due earlier run first
+                while min(self._alarm_deadlines) < deadline:
+                    await trio.lowlevel.checkpoint()
+                if not scope.cancel_called:  # not removed while this task was waking up
+                    callback()
+        finally:
+            self._alarm_deadlines.remove(deadline)
 
     def _fail_from_idle(self, exc: BaseException) -> None:
         """Re-raises an exception of an idle callback inside the nursery, waking the loop up."""
